@@ -77,8 +77,8 @@ def lab_env(thorough):
     """Run-time parameters of the multi-client history exploration inside the drivers. The same for all
     lab properties of one tier, so that they share the compile+run cache."""
     if thorough:
-        return {'VF_C04_DEPTH': '4', 'VF_C04_CLIENTS': '3', 'VF_C04_BFS_DEPTH': '8'}
-    return {'VF_C04_DEPTH': '3', 'VF_C04_CLIENTS': '2', 'VF_C04_BFS_DEPTH': '6'}
+        return {'VF_C04_DEPTH': '4', 'VF_C04_CLIENTS': '3', 'VF_C04_BFS_DEPTH': '8', 'VF_C04_PERMALL': '8', 'VF_C10_DEPTH': '7'}
+    return {'VF_C04_DEPTH': '3', 'VF_C04_CLIENTS': '2', 'VF_C04_BFS_DEPTH': '6', 'VF_C04_PERMALL': '6', 'VF_C10_DEPTH': '5'}
 
 
 def explore_lab(ctx, prop, k_quick, k_thorough, need_mc=False):
